@@ -402,6 +402,13 @@ class C15Clauses(IdentityTable):
                 return out
             x = info["_orig"]
             k = op["kind"]
+            want_cls = {"unit": L.Unit, "prefix": L.Prefix, "dim": L.Dimension, "qty": L.Quantity}[k]
+            if not isinstance(value, want_cls):
+                I.violation("C15.roundtrip", "C15/%s/%s/wrong-type:%s" % (codec, k, type(value).__name__),
+                            {"op": op})
+                if "id" in op:
+                    I.vals[op["id"]] = (None, ABSENT)
+                return {"C15.roundtrip": "VIOLATED"}
             if k in ("unit", "prefix", "dim"):
                 if value is not x:
                     I.violation("C15.identity", "C15/%s/%s/identity" % (codec, k),
@@ -429,6 +436,13 @@ class C15Clauses(IdentityTable):
                 return {"C15.load": "VIOLATED"}
             blob = info["_blob"]
             I.count("C15.load.checked")
+            want_cls = {"unit": L.Unit, "prefix": L.Prefix, "dim": L.Dimension, "qty": L.Quantity}.get(blob["kind"])
+            if want_cls is not None and not isinstance(value, want_cls):
+                I.violation("C15.load", "C15/%s/%s/load-wrong-type:%s" % (blob["codec"], blob["kind"],
+                                                                         type(value).__name__), {"op": op})
+                if "id" in op:
+                    I.vals[op["id"]] = (None, ABSENT)
+                return {"C15.load": "VIOLATED"}
             if I.restarted:
                 I.count("C15.load.after-restart.checked")
                 I.probe("blob-decoded-in-restarted-world")
